@@ -1687,6 +1687,11 @@ int process_user_command () {
 
   buf[MAX_TEXT - 1] = '\0';
 
+  /* Every buffered command is an execution thread of its own, like a heart_beat()
+   * or a call_out: it gets the whole evaluation budget, not what the commands of
+   * the users served before it in this backend cycle have left over. */
+  eval_cost = CONFIG_INT (__MAX_EVAL_COST__);
+
   /* WARNING: get_user_command() sets command_giver */
   if ((user_command = get_user_command ()))
     {
